@@ -19,6 +19,7 @@ type GenOpts struct {
 	MaxActive   bool
 	Delay       bool
 	Handlers    bool
+	Outputs     bool // some steps capture their stdout with output:
 	RetryMsProb int // % of retrying steps that get a 5..30 ms interval
 }
 
@@ -83,6 +84,16 @@ func GenDAG(r *rand.Rand, id string, o GenOpts) *vexec.CaseSpec {
 		}
 	}
 	spec.DecSeed = r.Int63()
+	if o.Outputs {
+		// drawn from a derived source so that the other draws stay what they were
+		r2 := rand.New(rand.NewSource(spec.DecSeed ^ 0x0117))
+		for _, s := range spec.Steps {
+			if r2.Intn(100) < 18 {
+				s.OutputVar = "VERIF_OUT_" + strings.ToUpper(strings.ReplaceAll(id, "-", "_")) + "_" + strings.ToUpper(s.Name)
+				s.OutBytes = 1 + r2.Intn(40)
+			}
+		}
+	}
 	return spec
 }
 
